@@ -288,6 +288,49 @@ def reencrypt_history(mon: Mon, N: int):
             ctx.count("histories")
 
 
+def stale_header_history(mon: Mon, N: int):
+    """equal header values handed over as a fresh object per call - values that happen to include the generated members of an earlier token
+    (its key-wrap iv and tag, its epk): every encryption still gets an IV / ephemeral key of its own.  (p2s / p2c given by the caller are the
+    caller's choice and not judged.)"""
+    ctx = mon.ctx
+    j = J.load()
+    for alg, enc, member in (("A128GCMKW", "A128GCM", "iv"), ("A256GCMKW", "A256CBC-HS512", "iv"), ("ECDH-ES", "A128GCM", "epk"), ("ECDH-ES+A128KW", "A192GCM", "epk")):
+        for form in ("compact", "flattened"):
+            name = f"stale-header:{form}:{alg}:{enc}"
+            rk, _ = g.keys_for(alg, enc, "X25519")
+            pub = j.key(gen.public_jwk(rk))
+            allow = [alg, enc]
+            first = call(j.jwe.encrypt_compact, {"alg": alg, "enc": enc}, b"first", pub, algorithms=allow)
+            if not first.ok:
+                continue
+            stale = json.loads(b64u_dec_lenient(first.value.split(".")[0]))
+            bags = {"content-iv": Bag(ctx, name, "iv", rjwe.ENC[enc][1], bits=False),
+                    member: Bag(ctx, name, "gcmkw-iv" if member == "iv" else "epk", 12 if member == "iv" else None, bits=False)}
+            bags[member].add(b64u_dec(stale["iv"]) if member == "iv" else b64u_dec(stale["epk"]["x"]), -1)
+            ctx.cell("history", "stale-header", alg, enc)
+            for idx in range(N):
+                ctx.ev()
+                hdr = json.loads(json.dumps(stale))    # a fresh object with equal values
+                if form == "compact":
+                    o = call(j.jwe.encrypt_compact, hdr, b"the same plaintext every time", pub, algorithms=allow)
+                else:
+                    obj = j.jwe.FlattenedJSONEncryption({"enc": enc}, b"the same plaintext every time")
+                    obj.add_recipient({k: v for k, v in hdr.items() if k != "enc"}, pub)
+                    o = call(j.jwe.encrypt_json, obj, None, algorithms=allow)
+                if not o.ok:
+                    ctx.open("header-with-stale-generated-members-refused")
+                    break
+                ctx.count("encryptions")
+                ctx.count("stale_header_encryptions")
+                prot, rl, iv = token_parts(o.value)
+                bags["content-iv"].add(iv, idx)
+                h = rl[0][0]
+                bags[member].add(b64u_dec(h["iv"]) if member == "iv" else b64u_dec(h["epk"]["x"]), idx)
+            for b in bags.values():
+                b.finish()
+            ctx.count("histories")
+
+
 def keygen_history(ctx, kind, N):
     j = J.load()
     kty, arg = kind.split(":")
@@ -444,6 +487,8 @@ def run_shard(ctx):
             forked_processes(ctx, mon)
         if ctx.shard % 4 == 1:
             reencrypt_history(mon, 40 if ctx.tier == "quick" else 400)
+        if ctx.shard % 4 == 2:
+            stale_header_history(mon, 40 if ctx.tier == "quick" else 400)
         cs = configs(ctx.tier)
         for idx, c in enumerate(cs):
             if idx % ctx.nshards != ctx.shard:
